@@ -168,13 +168,51 @@ def capture_used(rec: dict):
         rec["t4_obj"] = r
         return r
 
+    # stage wrappers on the orchestrator module (the lookup surface run_turn uses): results are captured even when the
+    # turn yields at a stage boundary (no health / t4 call); the turn-level cache lookup is observed as well
+    import clematis.engine.orchestrator as orch
+    import clematis.engine.cache as cache_mod
+
+    orig_t1 = getattr(orch, "t1_propagate")
+    orig_t2 = getattr(orch, "t2_semantic")
+    orig_get = cache_mod.CacheManager.get
+    rec.setdefault("t2_calls", 0)
+
+    def w1(ctx, state, text):
+        r = orig_t1(ctx, state, text)
+        rec["t1"] = t1_view(r)
+        rec["t1_obj"] = r
+        return r
+
+    def w2(ctx, state, text, t1):
+        r = orig_t2(ctx, state, text, t1)
+        rec["t2_calls"] += 1
+        if "t2" not in rec:  # the first call is the turn's main retrieval (a later one is the RAG refinement)
+            rec["t2"] = t2_view(r)
+            rec["t2_obj"] = r
+        return r
+
+    def wget(self, namespace, key):
+        hit, val = orig_get(self, namespace, key)
+        if hit and namespace == "t2:semantic" and "t2" not in rec:
+            rec["t2"] = t2_view(val)
+            rec["t2_obj"] = val
+            rec["turn_cache_hit"] = True
+        return hit, val
+
     health.check_and_log = h
     core.t4_filter = f
+    orch.t1_propagate = w1
+    orch.t2_semantic = w2
+    cache_mod.CacheManager.get = wget
     try:
         yield rec
     finally:
         health.check_and_log = orig_h
         core.t4_filter = orig_t4
+        orch.t1_propagate = orig_t1
+        orch.t2_semantic = orig_t2
+        cache_mod.CacheManager.get = orig_get
 
 
 def canonical(logs: Dict[str, bytes]) -> Dict[str, bytes]:
